@@ -1,6 +1,7 @@
 package updog
 
 import (
+	"errors"
 	"fmt"
 	"math/bits"
 	"sort"
@@ -33,6 +34,10 @@ func (idx *Index) Execute(q *Query) (*Result, error) {
 
 	idx.mtx.RLock()
 	defer idx.mtx.RUnlock()
+
+	if err := validateExpr(q.Expr); err != nil {
+		return nil, err
+	}
 
 	groupByFields, err := q.populateGroupBy(q.GroupBy, idx.schema)
 	if err != nil {
@@ -80,6 +85,47 @@ type Expression interface {
 	eval(idx *Index) (*roaring.Bitmap, error)
 	String() string
 	cacheKey() uint64
+}
+
+// validateExpr reports an error for expression trees that cannot be evaluated
+// because an expression or an operand is missing.
+func validateExpr(e Expression) error {
+	switch e := e.(type) {
+	case *ExprEqual:
+		if e == nil {
+			return errors.New("missing expression")
+		}
+		return nil
+	case *ExprNot:
+		if e == nil {
+			return errors.New("missing expression")
+		}
+		return validateExpr(e.Expr)
+	case *ExprAnd:
+		if e == nil {
+			return errors.New("missing expression")
+		}
+		for _, ee := range e.Exprs {
+			if err := validateExpr(ee); err != nil {
+				return err
+			}
+		}
+		return nil
+	case *ExprOr:
+		if e == nil {
+			return errors.New("missing expression")
+		}
+		for _, ee := range e.Exprs {
+			if err := validateExpr(ee); err != nil {
+				return err
+			}
+		}
+		return nil
+	case nil:
+		return errors.New("missing expression")
+	default:
+		return fmt.Errorf("unsupported expression type %T", e)
+	}
 }
 
 func (q *Query) populateGroupBy(columns []string, sch *schema) ([]groupBy, error) {
